@@ -194,6 +194,21 @@ class _DictIter(ast.NodeTransformer):
 
     def visit_Call(self, node):
         self.generic_visit(node)
+        if isinstance(node.func, ast.Name) and node.func.id in ("ELEM0", "ELEM1") and len(node.args) == 1:
+            # the pairs of D sorted by key (sorted(D.items()) sorts by key since keys are unique; key=lambda p: p[0] says so explicitly):
+            # the value of such a pair is D[<key in sorted order>]
+            a = node.args[0]
+            if isinstance(a, ast.Call) and isinstance(a.func, ast.Name) and a.func.id == "sorted" and len(a.args) == 1 \
+                    and isinstance(a.args[0], ast.Call) and isinstance(a.args[0].func, ast.Attribute) and a.args[0].func.attr == "items" and not a.args[0].args:
+                kw = {k.arg: k.value for k in a.keywords}
+                bykey = not kw or (set(kw) == {"key"} and isinstance(kw["key"], ast.Lambda) and len(kw["key"].args.args) == 1
+                                   and norm(kw["key"].body) == f"{kw['key'].args.args[0].arg}[0]")
+                if bykey:
+                    d = a.args[0].func.value
+                    keyel = ast.Call(func=ast.Name(id="ELEM", ctx=ast.Load()), args=[ast.Call(func=ast.Name(id="sorted", ctx=ast.Load()), args=[d], keywords=[])], keywords=[])
+                    if node.func.id == "ELEM0":
+                        return keyel
+                    return ast.Subscript(value=d, slice=keyel, ctx=ast.Load())
         if isinstance(node.func, ast.Name) and node.func.id in ("ELEM", "ELEM0", "ELEM1") and len(node.args) == 1:
             a = node.args[0]
             if node.func.id == "ELEM" and norm(a) in self.dicts:
@@ -214,6 +229,13 @@ class _DictIter(ast.NodeTransformer):
         if isinstance(s, ast.Call) and isinstance(s.func, ast.Name) and s.func.id == "KEY" and len(s.args) == 1 \
                 and norm(s.args[0]) == norm(node.value):
             return ast.Call(func=ast.Name(id="VAL", ctx=ast.Load()), args=[node.value], keywords=[])
+        # D[ELEM(sorted(D.keys()))] -> D[ELEM(sorted(D))]
+        if isinstance(s, ast.Call) and isinstance(s.func, ast.Name) and s.func.id == "ELEM" and len(s.args) == 1:
+            a = s.args[0]
+            if isinstance(a, ast.Call) and isinstance(a.func, ast.Name) and a.func.id == "sorted" and len(a.args) == 1 and not a.keywords \
+                    and isinstance(a.args[0], ast.Call) and isinstance(a.args[0].func, ast.Attribute) and a.args[0].func.attr == "keys" \
+                    and norm(a.args[0].func.value) == norm(node.value):
+                a.args[0] = a.args[0].func.value
         return node
 
 
@@ -440,6 +462,15 @@ class _SumCanon(ast.NodeTransformer):
         for s, t in terms:
             acc = t if acc is None else ast.BinOp(left=acc, op=ast.Add() if s > 0 else ast.Sub(), right=t)
         return acc
+
+    def visit_Call(self, node):
+        self.generic_visit(node)
+        # <pattern>.match(s).end() is the length of what was matched (match() anchors at position 0): len(<..>.group(0))
+        if isinstance(node.func, ast.Attribute) and node.func.attr == "end" and not node.args and not node.keywords \
+                and isinstance(node.func.value, ast.Call) and isinstance(node.func.value.func, ast.Attribute) and node.func.value.func.attr == "match":
+            grp = ast.Call(func=ast.Attribute(value=node.func.value, attr="group", ctx=ast.Load()), args=[ast.Constant(value=0)], keywords=[])
+            return ast.copy_location(ast.Call(func=ast.Name(id="len", ctx=ast.Load()), args=[grp], keywords=[]), node)
+        return node
 
     def visit_Compare(self, node):
         self.generic_visit(node)
